@@ -1,13 +1,16 @@
 import TexcraftModel.Util.Proto
 import TexcraftModel.Model.C03
+import TexcraftModel.Model.C03Bytes
 
 /-! Driver for C03 (lexer and traces). All numbers are decimal; characters are code points.
 
 A configuration is `<eol> <dflt> <n> (<char> <cat>)*n` (`eol` = -1 for none, `dflt` = the
 category of every character not listed).
 
-* `lex <rep> <cfg> <m> <src>*m` → `<M items> | <S items>`: the model's results with every key
+* `lex <rep> <cfg> <m> <src>*m` → `<M items> | <S items> | <B>`: the model's results with every key
   run through the model of `Tracer::trace`, and the specification's results.
+  `<B>` is the byte-level twin (`Bytes.bLexAll`): `=` when it equals the model's run, `10` when it
+  sliced off a character boundary, its traced items otherwise.
 * `sch <rep> <k> (<fromKey> <cfg>)*k <m> <src>*m` → `<M items>`: the model driven with a
   configuration that depends on how far the lexer has got (the configuration used for a call
   of `Lexer::next` is the last one whose `fromKey` ≤ the current key).
@@ -276,7 +279,12 @@ def handle (line : String) : String :=
       | some (cfg, t) =>
         match decSrc t with
         | some (src, []) =>
-          s!"{showItems (lexTraced cfg (rep != 0) src)} | {showItems (Spec.specAll cfg (rep != 0) src)}"
+          let m := lexAll cfg (rep != 0) src
+          let b :=
+            match Bytes.bLexAll cfg (rep != 0) src with
+            | none => "10"
+            | some l => if l == m then "=" else showItems (l.map (Res.map (trace src)))
+          s!"{showItems (m.map (Res.map (trace src)))} | {showItems (Spec.specAll cfg (rep != 0) src)} | {b}"
         | _ => "bad-request"
       | none => "bad-request"
     | _ => "bad-request"
